@@ -189,7 +189,7 @@ impl Part for C02 {
         }
         out.check("no RNG draws after setup", rng.drawn() == drawn_setup);
         // ciphertexts at high sequence numbers (reached with the hook): ContextS.Seal is defined for every seq
-        if c.suite.aead.can_seal() && !c.msgs.is_empty() {
+        if crate::suites::HOOKS && c.suite.aead.can_seal() && !c.msgs.is_empty() {
             for (i, p) in [1u64 << 32, (1u64 << 40) + 1, (1u64 << 56) + 2, u64::MAX - 1].into_iter().enumerate() {
                 s.set_seq(p);
                 let pt = bytes(c.fill, 9, 300 + i as u64, cfg.seed);
